@@ -27,9 +27,10 @@ class BareMove:
     def __init__(self, uid):
         self.uid = uid
         self.result = True
+        self.queue = []          # results for the next calls, before `result` applies again
 
     def __call__(self, context):
-        return self.result
+        return self.queue.pop(0) if self.queue else self.result
 
     def on_atoms_changed(self, added_indices, removed_indices):
         pass
@@ -49,6 +50,12 @@ class BareCriteria:
     def __init__(self, uid):
         self.uid = uid
         self.verdict = True
+        self.size = 1
+
+    def __len__(self):
+        # a criteria object may well be a container (of sub-criteria, of its decisions so far): an EMPTY one is falsy and
+        # still the criteria the user gave
+        return self.size
 
     def evaluate(self, context):
         return self.verdict
@@ -97,6 +104,11 @@ def make_strict(allowed, tag):
             log = object.__getattribute__(self, "_log")
             log.append((tag, object.__getattribute__(self, "_inner").uid, "OFF-PROTOCOL-WRITE", name))
             raise AttributeError(f"off-protocol write of {name!r}")
+
+        def __bool__(self):
+            # Python-internal: the proxy is as truthy as the user object (a criteria that is an empty container is falsy)
+            inner = object.__getattribute__(self, "_inner")
+            return bool(len(inner)) if hasattr(type(inner), "__len__") else True
 
     return Strict
 
@@ -208,6 +220,8 @@ class ProtocolSuite(common.Suite):
         tops = {}
         for k, e in enumerate(case["entries"]):
             cb = BareCriteria(100 + k)
+            if (k + len(case["trials"])) % 4 == 0:
+                cb.size = 0            # falsy, and still the criteria the user handed over
             crit = StrictCriteria(cb, log)
             crits[e["name"]] = cb
             if e["kind"] == "user":
@@ -256,8 +270,22 @@ class ProtocolSuite(common.Suite):
             current[0] = tr["name"]
             n0 = len(atoms)
             cell0 = atoms.cell.array.copy()
+            # a falsy result right AFTER an evaluated trial of the same step: it is recorded as not attempted all the same
+            doubled = (e["kind"] == "user" and not tr["truthy"][0] and kt % 2 == 0)
+            if doubled:
+                bare[e["users"][0]].queue = [True]
+                mc.yield_moves = lambda: iter([current[0], current[0]])
             for _ in mc.step():
                 pass
+            if doubled:
+                mc.yield_moves = lambda: iter([current[0]])
+                first = mc.move_history[0][1] if len(mc.move_history) == 2 else "missing"
+                out.setdefault("doubled", []).append({"trial": kt, "first": {True: "True", False: "False", None: "None"}.get(first, str(first)),
+                                                      "want_first": str(bool(tr["verdict"])),
+                                                      "second": {True: "True", False: "False", None: "None"}.get(mc.move_history[-1][1])})
+                del log[:]
+                mc.move_history = mc.move_history[-1:]
+                log.append(("move", e["users"][0], "call"))   # the second call, as the single-trial bookkeeping expects it
             (_, verdict), = mc.move_history
             out["trials"].append({"effective_truthy": [bool(bare[u].result) for u in e["users"]],
                                   "log": [list(x) for x in log], "history": {True: "True", False: "False", None: "None"}[verdict],
@@ -292,6 +320,11 @@ class ProtocolSuite(common.Suite):
         for entry in obs["setup_log"] + obs["to_dict_log"]:
             if "OFF-PROTOCOL" in entry[2]:
                 out.append((f"protocol:off-protocol-access:{ens}:{entry[3]}", f"setup/to_dict: {entry}"))
+        for dd in obs.get("doubled", []):
+            if dd["first"] != dd["want_first"] or dd["second"] != "None":
+                out.append((f"protocol:falsy-after-truthy-in-one-step:{ens}",
+                            f"trial {dd['trial']}: a truthy trial (verdict {dd['want_first']}) then a falsy one in one step were "
+                            f"recorded as {dd['first']}, {dd['second']} (expected {dd['want_first']}, None)"))
         for k, (tr, t) in enumerate(zip(case["trials"], obs["trials"])):
             e = next(x for x in case["entries"] if x["name"] == tr["name"])
             order = user_order(case, k)
